@@ -103,6 +103,7 @@ def mk_raster(kind, dtype, layout="C", backend="numpy", seed=0, nan=False, name=
         v = v.copy()
         v[0, 0] = np.nan
         v[h - 1, w - 1] = np.nan
+        v[0, w - 1] = np.inf
     mem = lay(v.astype(dt), layout)
     data = mem
     if backend == "dask":
@@ -389,7 +390,7 @@ def mk_dataset(dtype, layout, backend, seed=0):
     return d, mems
 
 
-def build_inputs(entry, dtype, layout, backend, seed=0):
+def build_inputs(entry, dtype, layout, backend, seed=0, h=H, w=W):
     """-> list of (role, xarray object, [mem arrays])"""
     np = _np()
     out = []
@@ -402,7 +403,7 @@ def build_inputs(entry, dtype, layout, backend, seed=0):
         if opts.get("dtype") == "int" and np.dtype(dtype).kind == "f":
             dt = "int32"
         a, m = mk_raster(kind, dt, layout, backend, seed=seed + opts.get("seed", 0), nan=opts.get("nan", False),
-                         name=role, chunks=opts.get("chunks", (4, 4)))
+                         name=role, chunks=opts.get("chunks", (4, 4) if h == H else (h // 3 + 1, w // 2 + 1)), h=h, w=w)
         out.append((role, a, [m]))
     return out
 
